@@ -99,12 +99,17 @@ impl Sanitizer {
 
         result = self.replace_non_alphanumeric(&result);
 
-        if !self.keep_zeros {
-            result = self.remove_leading_zeros(&result);
+        // Cut before stripping zeros (a cut must not expose a leading zero) and only on a char boundary
+        if let Some(max_len) = self.max_length {
+            let mut end = max_len.min(result.len());
+            while !result.is_char_boundary(end) {
+                end -= 1;
+            }
+            result.truncate(end);
         }
 
-        if let Some(max_len) = self.max_length {
-            result.truncate(max_len);
+        if !self.keep_zeros {
+            result = self.remove_leading_zeros(&result);
         }
 
         if let Some(sep) = &self.separator {
